@@ -102,8 +102,10 @@ namespace nmtools
         {
             auto old_size = size();
             if (old_size == DIM) {
+                // t may refer to an element of this vector: the inline storage it lives in is replaced by the heap vector
+                T value = t;
                 resize(old_size+1);
-                at(old_size) = t;
+                at(old_size) = value;
             } else if (auto static_ptr = nmtools::get_if<static_vector_type>(&buffer_)) {
                 return static_ptr->push_back(t);
             } else {
